@@ -50,7 +50,7 @@ def parse_log(path):
             for ln in f:
                 ln = ln.rstrip("\n")
                 p = ln.split(" ")
-                if len(p) < 2 or p[0] not in "CRMSBEX":
+                if len(p) < 2 or p[0] not in "CRMSBEXW":
                     continue
                 try:
                     line = int(p[1])
